@@ -910,6 +910,21 @@ func c45F32Witness(p *keyPool) []byte {
 	return append(out, refpgp.BuildPacket(18, append([]byte{1}, make([]byte, 40)...), refpgp.LenNew1, nil)...)
 }
 
+// c45F36Witness is an ElGamal session key packet for the test ElGamal key whose
+// second MPI is zero.
+func c45F36Witness(p *keyPool) []byte {
+	sub := p.byName["dsa"].ent.Subkeys[0].PublicKey
+	body := []byte{3}
+	for s := 56; s >= 0; s -= 8 {
+		body = append(body, byte(sub.KeyId>>uint(s)))
+	}
+	body = append(body, 16)
+	body = append(body, refpgp.MPI([]byte{2})...)
+	body = append(body, refpgp.MPI(nil)...)
+	out := refpgp.BuildPacket(1, body, refpgp.LenNew1, nil)
+	return append(out, refpgp.BuildPacket(18, append([]byte{1}, make([]byte, 40)...), refpgp.LenNew1, nil)...)
+}
+
 func c45Witnesses(t *testing.T, c *ev.Collector, p *keyPool) {
 	for _, w := range []struct {
 		id, what string
@@ -918,6 +933,7 @@ func c45Witnesses(t *testing.T, c *ev.Collector, p *keyPool) {
 	}{
 		{"F31", "F31 ReadKeyRing panics (\"impossible\") on an unprotected secret key packet with an ECDH public key (as exported by GnuPG)", c45ArmoredKeyring, p.eccSec},
 		{"F32", "F32 ReadMessage panics when an encrypted session key decrypts to fewer than 3 bytes", c45Message, c45F32Witness(p)},
+		{"F36", "F36 ReadMessage panics in elgamal.Decrypt (index out of range) when the second ElGamal MPI is 0 mod p, e.g. a wildcard-key-id RSA session key packet tried against an ElGamal key", c45Message, c45F36Witness(p)},
 	} {
 		res := c45Exec(p, w.target, w.data, nil, 0)
 		switch {
@@ -981,15 +997,17 @@ func TestC45(t *testing.T) {
 		c.Case(false, "", "corpus:"+it.kind)
 	}
 	c45Witnesses(t, c, p)
-	_, f31 := ev.IsKnownFinding("F31")
-	_, f32 := ev.IsKnownFinding("F32")
+	listed := map[string]bool{}
+	for _, id := range []string{"F31", "F32", "F36"} {
+		_, listed[id] = ev.IsKnownFinding(id)
+	}
 
 	rapid.Check(t, func(rt *rapid.T) {
 		target, data, aux, desc := c45Generate(rt, p, items)
 		mode := rapid.Byte().Draw(rt, "mode")
 		res := c45Exec(p, target, data, aux, mode)
 		if res.known != "" {
-			if (res.known == "F31" && f31) || (res.known == "F32" && f32) {
+			if listed[res.known] {
 				c.Excluded()
 				c.Class("excluded:" + res.known)
 				return
